@@ -429,6 +429,36 @@ def check_doc(case):
 
     # ---- labels
     labels = set(["doc", "input:" + case["input"], "paragraphs:%d" % min(len(paras), 5)])
+
+    # the encoding= parameter of the reader and of the paragraphs' own dump(fd), at the default and
+    # at a codec that is not UTF-8, wherever the text can be expressed in it: the bytes written are
+    # the text in that codec, and reading them with that codec gives the document again
+    for codec in ("utf-8", "iso-8859-1"):
+        try:
+            raw = text.encode(codec)
+        except UnicodeEncodeError:
+            labels.add("encoding=%s:not-applicable" % codec)
+            continue
+        blines = [l + b"\n" for l in raw.split(b"\n")[:-1]]
+        for how, seq in (("bytes lines", blines), ("binary file", io.BytesIO(raw)), ("bytes", raw)):
+            if how == "bytes" and (b"\r" in raw or "\x85" in text):
+                continue        # a whole buffer is cut by splitlines(): C02's and C07's territory
+            try:
+                d = C.Copyright(seq, encoding=codec, strict=True)
+            except (C.NotMachineReadableError, MRFE, UnicodeError) as e:
+                raise Violation("encoding-parameter:dumped-text-rejected", "%s as %s with encoding=%r: %s: %s"
+                                % (short(text, 300), how, codec, type(e).__name__, e))
+            if d.dump() != text:
+                raise Violation("encoding-parameter:reparsed-differs", "%s encoded as %s, read as %s with "
+                                "encoding=%r, dumps %s" % (short(text, 300), codec, how, codec, short(d.dump(), 300)))
+        for k, para in enumerate(doc.all_paragraphs()):
+            fd = io.BytesIO()
+            para.dump(fd, encoding=codec)
+            if fd.getvalue() != para.dump().encode(codec):
+                raise Violation("encoding-parameter:paragraph-dump-differs", "paragraph %d: dump(fd, encoding=%r) "
+                                "wrote %s, dump() is %s" % (k, codec, short(fd.getvalue(), 300), short(para.dump(), 300)))
+        labels.add("encoding=%s:%s" % (codec, "non-ascii" if any(ord(c) > 127 for c in text) else "ascii-only"))
+
     later_calls(case, doc, doc2, [objs[i] for i in order], h, [paras[i] for i in order], labels)
     kinds = [p[0] for p in paras]
     if "F" in kinds and "L" in kinds:
